@@ -249,6 +249,13 @@ func (w *World) ConsumedObligations(fn *ssa.Function) (kind string, obls []RetOb
 		if errDefinitelyNonNil(c, errV) {
 			continue
 		}
+		// `return f(x)`: the returned error IS the callee's; the obligation is
+		// about returns with a nil error, and then the callee's success facts hold
+		if ex, ok := errV.(*ssa.Extract); ok {
+			if call, ok := ex.Tuple.(*ssa.Call); ok && ex.Index == call.Common().Signature().Results().Len()-1 {
+				c.successFacts(call)
+			}
+		}
 		var goals []lin.Con
 		if okC {
 			kind = "consumed"
